@@ -23,7 +23,9 @@ applied to; for decode_static the field of the constructed aggregate each decode
                    alignment_bytes(size_of) zero bytes then to_be_bytes and decode skip(alignment_bytes) + read +
                    from_be_bytes; Vec<T>/[T;N] byte paths pad on encode with alignment_bytes(len) and skip
                    alignment_bytes(capacity|N) on decode; element paths iterate encode/decode over all elements;
-                   Serialize::size = size_static + size_dynamic; encode = static then dynamic; decode likewise.
+                   Serialize::size = size_static + size_dynamic; encode = static then dynamic; decode likewise;
+                   Vec's element count travels from decode_static to decode_dynamic as the capacity: both
+                   allocations use exactly the decoded length and decode_dynamic decodes capacity() elements.
   POLICIES         the hand-written Policies codec iterates PoliciesBits::all() in both directions, guarded by
                    bits.contains(bit), and size_dynamic = count_ones * Word size.
 Not decided: equality of values after a round trip (needs execution), e.g. whether a *predicate* input with an empty
